@@ -28,7 +28,7 @@ def run(tier, seed, replay=None):
         explanation="Theorems (Props/C11, all expressions / leaf scripts / event sequences): via_completes_on_scheduler, typed_via_completes_on_scheduler "
                     "(root signal only inside `run c`), on_starts_on_scheduler (nothing of the child happens before context c runs an item), sync_sound / "
                     "always_inline_sound / always_sound (declared blocking <= always => signal inside start on the starting context), "
-                    "sends_done_false_sound (mdFree) + sends_done_sem_sound, affine_sound (Scoped). Negations with witnesses for the declared traits "
-                    "that are wrong in the code: sends_done_unsound_dematerialize, affine_unsound_with_query_value, affine_unsound_on_inline. "
+                    "sends_done_false_sound (unconditional) + sends_done_sem_sound + dematerialize_declares_source, affine_sound (Scoped = the contract of "
+                    "with_scheduler_affinity) + with_query_value_not_affine, on_not_affine, with_affinity_rehops_replaced_scheduler. "
                     "Tie: full per-event trace equality (with contexts) of the real library and Ctx.step on generated cases; equality of the "
                     "compiler-computed traits with the Lean trait functions on the typed corpus.")
